@@ -10,7 +10,7 @@ Pipeline (every decision is TLC's; Python moves data):
      are recorded scaled by 2^14 and validated by TLC (LinAlgebraValidate); seeded random executions of one real affine
      map object are validated by TLC against the trace specification LinTrace.
 
-Binding demonstration (each applied to a scratch copy of /repo, VERIF_REPO=<copy> bin/check C06 --tier quick; all VIOLATION):
+Binding demonstration (selftest/mutations/C06/*.diff, each verified with selftest/try_patch.sh; all VIOLATION):
   LinearSpace2::adjoint sign of one entry; LinearSpace3(quaternion) sign of one term; QuaternionT(vx,vy,vz) y-largest branch
   (vy.z + vz.y -> vy.z - vz.y: only the y-largest classes fail); LinearSpace3::rotate sign of one sine term; xfmNormal without
   transposed(); lookat cross(Z, up) -> cross(up, Z); slerp without the short-way flip; frame(N) dy = cross(dx, N);
@@ -35,7 +35,7 @@ LEVEL_TEXT = ("TLC checks the laws of the LinAlgebra specification for every 2x2
               "occur, Hurwitz unit quaternions multiply / conjugate / rotate vectors as their matrices do.  TLC then enumerates the same "
               "bounded domain and emits one case per input; every case is evaluated on the real LinearSpace2 / LinearSpace3 / AffineSpaceT / "
               "QuaternionT for float, double and padded float vectors and compared with the exact integer expectation within 1e-4; results "
-              "that are rational (inverse, rcp, xfmNormal for |det| > 1) or defined by laws (orthogonal, frame, lookat, slerp midpoint) are "
+              "that are rational (inverse, rcp, xfmNormal for |det| > 1) or defined by laws (orthogonal, frame, lookat, slerp midpoint; rotations with rational matrices, which reach every term of every branch of the matrix-to-quaternion constructor) are "
               "recorded scaled by 2^14 and validated by TLC against the defining predicates; seeded random executions of a real affine map "
               "object are validated by TLC against the trace specification")
 LEVEL_NOTE = ("bounded and exact-arithmetic only: matrix entries in -1..1 (2x2 also -2..2), translations in -3..3, rotation axes = the 13 axes "
@@ -58,7 +58,7 @@ TNAME = {"f": "float", "d": "double", "fa": "float,aligned"}
 OPS_2D = {"Unary2", "Inverse2", "MulVec2", "Pair2", "Rotate2", "Ctor2", "Aff2Pair", "Aff2Rot", "Aff2RotAbout", "Orthogonal2"}
 OPS_AFF2 = {"Aff2Pair", "Aff2Rot", "Aff2RotAbout"}
 OPS_AFF3 = {"AffXfm", "AffInv", "AffPair", "AffCtor", "AffRotate", "AffRotateAboutQ", "Lookat"}
-OPS_QUAT = {"QuatAA", "QuatFromMat", "QuatFromRot", "QuatPair", "QuatVec", "HQuat", "QuatYPR", "Slerp"}
+OPS_QUAT = {"QuatAA", "QuatFromMat", "QuatFromRot", "QuatPair", "QuatVec", "HQuat", "QuatYPR", "QuatRat", "Slerp"}
 TRACE_OPS = ["TNew", "TMulL", "TMulR", "TTrans", "TRotH", "TInv", "TQuery"]
 
 
@@ -396,6 +396,7 @@ def run_cases(chk, rnd, quick, variants, level):
             "QuatFromRot": ["trace", "x-largest", "y-largest", "z-largest"], "QuatVec": ["trace", "x-largest", "y-largest", "z-largest"],
             "Slerp": ["equal/t=1/2", "equal/negated/t=1/2", "quarter-turn-apart/t=1/2", "half-turn-apart/t=1/2", "third-turn-apart/t=1/2",
                       "quarter-turn-apart/t=0/2", "half-turn-apart/t=2/2"],
+            "QuatRat": ["trace/all-terms", "x-largest/all-terms", "y-largest/all-terms", "z-largest/all-terms"],
             "Orthogonal2": ["proper", "mirrored"], "FrameUp": ["up-parallel", "coordinate"], "Frame": ["coordinate", "body-diagonal"]}
     for op in ["MulVec2", "Pair2", "Rotate2", "Ctor2", "Aff2Pair", "Aff2Rot", "Aff2RotAbout", "AffCtor", "AffRotateAboutQ", "Lookat", "QuatPair",
                "HQuat", "QuatYPR"]:
@@ -408,8 +409,9 @@ def run_cases(chk, rnd, quick, variants, level):
                 raise tla.InfraError("vacuity guard: no %s case of class %s was generated" % (op, k))
     branches = {}
     for c in cases:
-        if c["a"] in ("QuatFromMat", "QuatFromRot", "QuatVec"):
-            branches[c["cls"]] = branches.get(c["cls"], 0) + 1
+        if c["a"] in ("QuatFromMat", "QuatFromRot", "QuatVec", "QuatRat"):
+            b = c["cls"].split("/")[0]
+            branches[b] = branches.get(b, 0) + 1
     chk.cov["matrix_to_quaternion_branch_cases"] = branches
 
     # phase B
@@ -430,7 +432,7 @@ def run_cases(chk, rnd, quick, variants, level):
 
     chk.require_actions([op for op in need if op != "AffRotateAboutQ" or have_rpq])
     chk.require_actions(["validated:" + op for op in ("Inverse2", "Inverse3", "Xfm3", "AffXfm", "AffInv", "Aff2Pair", "Orthogonal2", "Frame",
-                                                      "FrameUp", "Lookat", "Slerp")])
+                                                      "FrameUp", "Lookat", "Slerp", "QuatRat")])
     chk.require_actions(TRACE_OPS + (["TRotC"] if have_rpq else []))
     chk.add_sample({"kind": "case", "case": strip(next(c for c in cases if c["a"] == "QuatFromMat" and c["cls"] == "y-largest"))})
     chk.add_sample({"kind": "case", "case": strip(next(c for c in cases if c["a"] == "Xfm3" and c["cls"] == "unimodular"))})
